@@ -122,6 +122,8 @@ type worldC struct {
 	accessOrphanEonKey *shcrypto.EonPublicKey
 	// accessReannounce: access nodes see the keyper set announced twice, first with other members
 	accessReannounce bool
+	// maxTxPointerAge overrides the Gnosis flavour's MaxTxPointerAge (default 2)
+	maxTxPointerAge uint64
 	eon int64
 	tasks int // running harness task goroutines
 	// provision, if set, replaces the default eon provisioning of addNode
@@ -280,6 +282,9 @@ func (w *worldC) addNode(name string, idx int, state dkgState, extra func(nd *cN
 		cfg.Gnosis.EncryptedGasLimit = 100_000
 		cfg.Gnosis.MinGasPerTransaction = 21_000
 		cfg.Gnosis.MaxTxPointerAge = 2
+		if w.maxTxPointerAge != 0 {
+			cfg.Gnosis.MaxTxPointerAge = w.maxTxPointerAge
+		}
 		cfg.Gnosis.SecondsPerSlot = 5
 		cfg.Gnosis.SlotsPerEpoch = 16
 		cfg.Gnosis.GenesisSlotTimestamp = 1665410700
